@@ -183,9 +183,25 @@ def _hyp_shard(args):
             raise RuntimeError("too many harness errors")
 
     try:
-        campaign()
+        if n > 0:
+            campaign()
     except Exception:
         acc.errors.append(traceback.format_exc())
+    # optional: the property as a rule-based state machine (stateful mode)
+    if hasattr(mod, "machine"):
+        from hypothesis.stateful import run_state_machine_as_test
+
+        nm = int(getattr(mod, "MACHINE_BUDGET", {}).get(tier, 0))
+        per = (nm + NPROC - 1) // NPROC
+        if per > 0:
+            cls = mod.machine(tier, lambda case, res: acc.add(case, res))
+            try:
+                run_state_machine_as_test(
+                    hypothesis.seed(seed_value * 1000 + 500 + shard)(cls),
+                    settings=settings(max_examples=per, stateful_step_count=25, database=None, deadline=None, derandomize=False,
+                                      report_multiple_bugs=False, phases=[Phase.generate], suppress_health_check=list(HealthCheck)))
+            except Exception:
+                acc.errors.append(traceback.format_exc())
     return acc
 
 
